@@ -880,11 +880,14 @@ func (db *DB) Drop() (err error) {
 
 // DeleteAll deletes all Objects of the same type and commit changes
 func (db *DB) DeleteAll(of Object) (err error) {
+	db.Lock()
+	defer db.Unlock()
+
 	var it *iterator
-	if it, err = db.Iterator(of); err != nil {
+	if it, err = db.iterator(of); err != nil {
 		return
 	}
-	return db.DeleteObjects(it)
+	return db.deleteObjects(it)
 }
 
 // DeleteObjects deletes Objects from an Iterator and commit changes.
@@ -893,6 +896,11 @@ func (db *DB) DeleteObjects(from *iterator) (err error) {
 	db.Lock()
 	defer db.Unlock()
 
+	return db.deleteObjects(from)
+}
+
+// deleteObjects must be called with DB locked
+func (db *DB) deleteObjects(from *iterator) (err error) {
 	var o Object
 
 	defer db.commit(from.object())
